@@ -78,6 +78,7 @@ struct BodyInfo {
     closures: usize,
     wilds: Vec<String>,
     or_guards: Vec<String>,
+    guard_wilds: Vec<String>,
 }
 
 struct BreakCollector<'a> {
@@ -204,6 +205,19 @@ impl<'a, 'ast> Visit<'ast> for BodyVisitor<'a> {
         let scope = format!("{},\"guard\":{}", scope, a.guard.is_some());
         self.ref_pats(&a.pat, scope);
         syn::visit::visit_arm(self, a);
+    }
+    fn visit_expr_match(&mut self, m: &'ast syn::ExprMatch) {
+        // `match x { P if g => e1, _ => e2 }`
+        if m.arms.len() == 2 {
+            let (a0, a1) = (&m.arms[0], &m.arms[1]);
+            if let (Some((if_tok, g)), None, syn::Pat::Wild(_)) = (&a0.guard, &a1.guard, &a1.pat) {
+                self.info.guard_wilds.push(format!(
+                    "{{\"pat_end\":{},\"if_start\":{},\"guard\":{},\"body\":{},\"else_body\":{}}}",
+                    br(a0.pat.span()).1, br(if_tok.span()).0, span_json(g.span()), span_json(a0.body.span()), span_json(a1.body.span())
+                ));
+            }
+        }
+        syn::visit::visit_expr_match(self, m);
     }
     fn visit_expr_closure(&mut self, c: &'ast syn::ExprClosure) {
         self.info.closures += 1;
@@ -334,7 +348,7 @@ fn fn_json(
     };
     let (s, e) = br(whole);
     format!(
-        "{{\"kind\":\"fn\",\"name\":{},\"start\":{},\"end\":{},\"attrs\":{},\"vis\":{},\"sig\":{},\"ret\":{},\"generics\":{},\"gparams\":{},\"where\":{},\"params\":[{}],\"body_open\":{},\"body_close\":{},\"stmts\":[{}],\"loops\":[{}],\"let_loops\":[{}],\"ref_pats\":[{}],\"wilds\":[{}],\"or_guards\":[{}],\"closures\":{},\"idents\":[{}]}}",
+        "{{\"kind\":\"fn\",\"name\":{},\"start\":{},\"end\":{},\"attrs\":{},\"vis\":{},\"sig\":{},\"ret\":{},\"generics\":{},\"gparams\":{},\"where\":{},\"params\":[{}],\"body_open\":{},\"body_close\":{},\"stmts\":[{}],\"loops\":[{}],\"let_loops\":[{}],\"ref_pats\":[{}],\"wilds\":[{}],\"or_guards\":[{}],\"guard_wilds\":[{}],\"closures\":{},\"idents\":[{}]}}",
         jstr(&sig.ident.to_string()),
         s,
         e,
@@ -354,6 +368,7 @@ fn fn_json(
         info.ref_pats.join(","),
         info.wilds.join(","),
         info.or_guards.join(","),
+        info.guard_wilds.join(","),
         info.closures,
         ids.join(",")
     )
